@@ -26,8 +26,8 @@ sim("C03", "environment = parent entries then extra entries in order (strv_conca
     "the parent-side composition (that process_start hands exactly strv_concat/path_prepend_cwd's results to the child side) is decided by the tie; program lookup along PATH is the world's.",
     "random byte strings for argv/env, cwd lengths around multiples of 4096, program forms (bare, absolute, relative, ./), wd none/absolute/relative; heap canaries on every allocation of the real code.",
     "Coq theorems (buffer arithmetic, environment order) + correspondence + exec-image monitor")
-sim("C04", "handle state as a function of start's result (negative: not started, all fields invalid; positive: running; zero: in child), the exit block, rejection of a started handle, no effect at all for invalid options on a fresh handle.",
-    "descriptor/heap/child residue and the reported cause under every fault plan (the errno flow through both sides of fork).",
+sim("C04", "WHAT THE RESULT MEANS UNDER EVERY FAULT PLAN (C04_start_result, C04_process_start_result): whenever reproc_start returns in the caller - whatever calls fail at whatever call index with whatever error number, whatever latencies, whatever the child and other processes do - either the result is negative and the life-cycle marker is unchanged (no failure of any call - allocation, pipe, fcntl, getcwd, sigprocmask, fork, waitpid - ever surfaces as success: the error number read after a failed call is positive, tracked through every cleanup), or the result is 1, the handle is running and its pid is positive and is exactly the value returned by a fork call made by this very start; handle state as a function of start's result (negative: not started, all fields invalid; positive: running; zero: in child), the exit block, rejection of a started handle, no effect at all for invalid options on a fresh handle.",
+    "descriptor/heap/child residue of a failed start and that the negative result is the error of the call that failed first (the cause), under every fault plan; that success implies the program was exec'd (refuted by the known findings D18/D20, which need a second failure).",
     "every call index of 17 option scenarios x errnos (singles exhaustively, pairs sampled), followed by pid / second start / destroy.",
     "Coq theorems (life-cycle of start) + fault enumeration against the implementation")
 sim("C05", "the regenerated ownership table of redirect_destroy is the documented one; foreign types cause no system call; the single close helper; the post-start API closes only descriptors stored in the handle and never the invalid marker; failed start owns nothing.",
@@ -35,15 +35,15 @@ sim("C05", "the regenerated ownership table of redirect_destroy is the documente
     "single-fault enumeration + pairs + random histories with sprinkled faults + closed-FILE streams, all ending in destroy; close-discipline automaton on the parent's trace.",
     "Coq theorems (ownership table, close footprints) + fault enumeration + ledger monitors")
 sim("C06", "every kill/waitpid made by terminate/kill/wait/stop/destroy names the pid stored in the handle, signals are SIGTERM/SIGKILL, none once a status is cached, rejection before start; a successful reap happens only while the handle's child is unreaped: at the moment the waitpid event is logged that pid is a zombie in the world (C06_reap_only_unreaped, every well-formed world).",
-    "that the pid stored by a successful start is the positive pid of the forked child; that kill is only sent while the child is unreaped as a world-level statement (the handle-level one, none once a status is cached, is proved).",
+    "that kill is only sent while the child is unreaped as a world-level statement (the handle-level one, none once a status is cached, is proved; C06_started_pid_is_own_fork proves for every fault plan that a handle reported as running holds the positive pid returned by that start's own fork call).",
     "start fault enumeration (incl. allocation failures) followed by terminate/kill/wait/stop/destroy; random histories.",
     "Coq footprint theorems + correspondence + target monitor")
-sim("C07", "the loop equations (act, wait(timeout), stop on anything but a time-out; noop keeps the previous result), the regenerated action table, a non-negative result is always the cached status of a reaped child, all-noop = wait(deadline)+terminate(infinite), footprint.",
-    "order/once of the signals as a trace property; per-wait time bounds (virtual time).",
+sim("C07", "the loop equations (act, wait(timeout), stop on anything but a time-out; noop keeps the previous result), the regenerated action table, a non-negative result is always the cached status of a reaped child - as a statement about the world (C07_status_is_reaped_childs, every action list, every well-formed world and fault plan: the handle's own child was a zombie with that wait status at a moment of the call, is reaped afterwards, the reap is in the trace), all-noop = wait(deadline)+terminate(infinite), footprint; every poll made by a stop sequence is blocked at most the time-out it was given (TimeSpec).",
+    "order/once of the signals as a trace property; that the time-out handed to each poll is the action's (the blocking bound given that argument is proved).",
     "all 5^3 action triples x time-out patterns x 8 child behaviours x deadlines; EINTR after partial blocking at every call of stop; random triples with latencies.",
     "Coq theorems (stop loop) + exhaustive action-triple correspondence + timing monitor")
-sim("C08", "expiry: infinite iff both infinite, deadline marker iff expired, else min(timeout, time left), never longer than either; find_earliest_deadline (one clock instant): picks a source with minimal remaining time for every order of sources with NULL and deadline-less sources anywhere, the first expired one at once.",
-    "the bound on the OS poll's blocking time over the world's scheduler; the clock instants of the loop coinciding.",
+sim("C08", "expiry: infinite iff both infinite, deadline marker iff expired, else min(timeout, time left), never longer than either; find_earliest_deadline (one clock instant): picks a source with minimal remaining time for every order of sources with NULL and deadline-less sources anywhere, the first expired one at once; THE BOUND ON THE OS-LEVEL WAIT FOR EVERY WORLD AND SCHEDULE (TimeSpec: C08_blocking_never_passes_the_deadline, C08_poll_bounded_by_its_timeout, C08_wait_bounded, C08_poll_bounded): virtual time is advanced only by the blocking loop, never backwards and never past the deadline, whatever the children do; every poll event with a non-negative time-out is blocked within [0, time-out] (also when interrupted); wait(t) and poll(t) with t >= 0 are never blocked longer than t for every source list and every deadline.",
+    "that the clock instants inside one poll/wait coincide with the instant the blocking starts (the deadline clause 'never past the deadline itself' is carried by expiry's arithmetic plus the tie); that the world's scheduler is Linux's.",
     "1-3 sources of 6 kinds in every order x 5 time-outs x activity times; wait grids; fork mode; EINTR after partial blocking.",
     "Coq theorems (expiry arithmetic, earliest-deadline selection) + exhaustive layout correspondence + timing monitor")
 sim("C09", "events of a source are a subset of its interests, each bit means the OS reported an event on that valid pipe, the deadline bit is never produced by the mapping, NULL sources are silent, the count, the closed-pipe test.",
